@@ -23,10 +23,13 @@ A Python exception (`ZeroDivisionError`) is `none`; "returns a result" is `= som
 entries of a row.  Every theorem about a list-level routine therefore carries the decidable guard of
 `Model/Linalg.lean` under which the implementation gets past these checks (`isSquare`, `luSolveOk`,
 `luFactorOk`, `matrixInverseOk`, `matrixMultiplyOk`, `matrixVectorOk`, `admissible` for a call of a history);
-nothing is claimed about inputs the code rejects.  The proofs do not use the guards (the padded model
+nothing is claimed about inputs outside the guards.  The guards are SUFFICIENT (never too weak: whenever a guard holds,
+the real routine raises only on a zero pivot – enumerated against the real code on all shapes with ≤ 3 rows of
+length ≤ 3), NOT necessary: on a few degenerate shapes the guard fails although the code returns – and the model
+returns the same value – see `guards_sufficient_not_necessary`.  The proofs do not use the guards (the padded model
 happens to satisfy the equations anyway); they restrict the CLAIM to the inputs on which model and code
-are compared.  `driver_guard` shows that the guard is literally the test after which the driver answers
-`ERR` in the correspondence check.  The function-level theorems (`doolittle_*`, the substitutions) are about
+are compared.  `driver_guard` records that the test after which the driver answers `ERR` in the correspondence
+check is the same expression (a definitional identity of two written-out copies; it says nothing about Python).  The function-level theorems (`doolittle_*`, the substitutions) are about
 `ℕ → ℕ → K` entry functions and need no guard.
 
 The model mirrors the *repaired* code for F-16a (pivoting works on a copy of the memoised identity)
@@ -277,11 +280,30 @@ end helpers
 
 /-! ### the guards are the tests of the correspondence check -/
 
-/-- **The guard of the theorems is what the driver checks**: the driver (`Driver/Linalg.lean`, ops `la.op`,
-    `la.hist`) answers `ERR` - and the harness expects the implementation to raise - exactly when `admissible`
-    fails.  (`Drv.opOk` is written out independently in the driver; the two definitions agree on every call.) -/
+/-- **The guard of the theorems is the test the driver performs** – a DEFINITIONAL identity (`rfl` per constructor):
+    `Drv.opOk` (`Driver/Linalg.lean`, ops `la.op`, `la.hist`: the driver answers `ERR` when it fails) is the expression
+    `admissible` written out a second time.  It ties the hypotheses of the theorems to the driver; it says nothing about
+    Python – that the real routines raise only where the guard fails is what the correspondence streams and the
+    small-shape enumeration check (the guard is sufficient, not necessary, see below).  Covers `la.op` / `la.hist`
+    only; the handlers `la.mmul`, `la.mvec` call `matrixMultiplyOk` / `matrixVectorOk` directly. -/
 theorem driver_guard (op : Op Rat) : Drv.opOk op = admissible op := by
   cases op <;> rfl
+
+/-- **The guards are sufficient, not necessary** (closed witness checks): four shapes on which the guard is `false`
+    while the real routine returns and the model returns the same value – `lu_factor` with a right-hand side whose
+    later row is longer (`luFactorOk` asks for a rectangular `b`, `luSolveOk` only for rows at least as long as the
+    first), right-hand sides without columns (`lu_solve([[1]], [[],[]]) = [[],[]]`, `matrix_multiply([[1],[]], [[]]) =
+    [[],[]]`), and `matrix_pivot([[5],[1,2]])` (only `lu_decomposition` tests squareness).  On such inputs the driver
+    answers `ERR`; the generators do not produce them and no theorem speaks about them. -/
+theorem guards_sufficient_not_necessary :
+    (luFactorOk ([[10,1],[1,10]] : List (List Rat)) [[1],[2,3]] = false ∧
+      luFactor ([[10,1],[1,10]] : List (List Rat)) [[1],[2,3]] = some [[8/99],[19/99]]) ∧
+    (luSolveOk ([[1]] : List (List Rat)) [[],[]] = false ∧ luSolve ([[1]] : List (List Rat)) [[],[]] = some [[],[]]) ∧
+    (matrixMultiplyOk ([[1],[]] : List (List Rat)) [[]] = false ∧
+      matrixMultiply ([[1],[]] : List (List Rat)) [[]] = [[],[]]) ∧
+    (admissible (.pivot [[5],[1,2]] : Op Rat) = false ∧
+      (matrixPivot ([[5],[1,2]] : List (List Rat))).mp = [[5],[1,2]]) := by
+  decide +kernel
 
 /-- unfolding lemma: what the guards say in plain terms - `A` has `len(A)` rows of `len(A)` entries, `b` is
     non-empty, has at most `len(A)` rows, each at least as long as the first -/
